@@ -36,7 +36,10 @@ var badValues = []string{"", " lead", "\tlead", "x\ny", "\n"}
 var badFileKeys = []string{"Key", "aB", "a b", "É", "1", "", "a:b", ".file", "a b", "a\nb"}
 var badInternalKeys = []string{"Unit ns/op a=b", "a\nBenchmarkX 1 1 ns/op", "BenchmarkX 1 1 ns/op"}
 
-var names = []string{"X", "Foo/a=1-8", "", "é", "\xff\xfe", "Unit", "X:", "a=b", "X\u200b", "Sub/x:y/z=1", "-"}
+var names = []string{"X", "Foo/a=1-8", "", "é", "\xff\xfe", "Unit", "X:", "a=b", "X\u200b", "Sub/x:y/z=1", "-",
+	// names that themselves start with (something like) the line prefix: the writer adds exactly one
+	// "Benchmark", the reader strips exactly one
+	"BenchmarkDecode-8", "Benchmark", "BenchmarkBenchmark", "benchmark", "Bench", "BenchmarkSuite/sub=1-4", "Benchmarks"}
 var badNames = []string{"X Y", "X ", "\tX", "X\n"}
 var units = []string{"ns/op", "MB/s", "B/op", "allocs/op", "widgets", "x/ns", "ns/ns", "sec/op", "é/op", "MB", "ns", "x-ns/op", "B/s", "="}
 var badUnits = []string{"", "a b", "x "}
@@ -406,6 +409,14 @@ func apiCorpus() {
 		c.intent = []string{"branch", "goos"}
 		c.write(res)
 	})
+	// names that start with "Benchmark" themselves
+	run("api", func(c *caseB) {
+		c.tag("corpus")
+		c.tag("prefixname")
+		for _, n := range []string{"BenchmarkSuite/sub=1-4", "Benchmark", "BenchmarkBenchmark", "benchmark", "Bench", "BenchmarkDecode-8"} {
+			c.write(&benchfmt.Result{Name: benchfmt.Name(n), Iters: 1, Values: val})
+		}
+	})
 	// N1
 	run("api", func(c *caseB) {
 		c.tag("corpus")
@@ -683,6 +694,7 @@ var textCorpus = []string{
 	"Unit ns/op better=lower\nUnit ns/op better=lower assume=exact\nUnit sec/op better=higher\nBenchmarkX 1 1 ns/op\n",
 	"a: 1\nBenchmarkX 1 1 ns/op\nBenchmarkX 1\nBenchmarkY x 1 ns/op\na: 2\nBenchmarkX 1 1 ns/op\n",
 	"a:  \t x  \nBenchmarkX\t1\t1\tns/op\v2\fMB/s\r\n",
+	"BenchmarkBenchmarkDecode-8 200 7 ns/op\nBenchmarkBenchmark 1 1 ns/op\nBenchmarkBenchmarkBenchmark 1 1 ns/op\nBenchmarkbenchmark 1 1 ns/op\nBenchmarkBench 1 1 ns/op\n",
 }
 
 // ---------------------------------------------------------------- the benchfilter path
